@@ -405,6 +405,26 @@ def r7_address_subtraction(ctx, P):
              site="addr - size saturates")
 
 
+def r10_overflow_not_alloc_failure(ctx, P):
+    R = "C07.R10"
+    ctx.rule(R, "a capacity overflow is reported as such (unwinding panic), not as an allocation failure (alloc::handle_alloc_error "
+                "aborts): where the refusal of a bump-allocator *handle* call (which also fails when no chunk size exists for the "
+                "request, without ever asking the base allocator) is turned into E::allocation, the cause is lost. The only site "
+                "that may construct E::allocation is the base allocator's own refusal in NonDummyChunk::new")
+    n = 0
+    for b in P.fn_bodies():
+        sites = [(s_, t) for s_, t in b.calls() if t["f"].get("trait") == EB and t["f"].get("name") == "allocation"]
+        for k, (s_, t) in enumerate(sites):
+            n += 1
+            base = b.path.startswith("raw_bump::NonDummyChunk::<A, S>::new")
+            ctx.inst(R, b.path, base, "E::allocation reports the base allocator's refusal" if base else
+                     "E::allocation stands for any failure of a call on a bump-allocator handle - also for 'no chunk size exists for "
+                     "this request' (capacity overflow): e.g. reserve(isize::MAX - 8) aborts the process with 'memory allocation of ... "
+                     "bytes failed' although the base allocator was never asked, where the direct typed path unwinds with "
+                     "'capacity overflow'", where=b.where(s_), site="handle failure reported as allocation")
+    ctx.floor(R, "E::allocation sites", n, 2)
+
+
 def run(ctx, progs):
     ctx.assume("rustc nightly's type checker, MIR construction and trait resolution are correct")
     ctx.assume("call graph: trait-method calls on type parameters of local traits are linked to all local impls (CHA), "
@@ -419,6 +439,7 @@ def run(ctx, progs):
         r5_overflow(ctx, P)
         r6_current_chunk_commit(ctx, P)
         r7_address_subtraction(ctx, P)
+        r10_overflow_not_alloc_failure(ctx, P)
         from . import c14
         c14.r5_claimed_is_not_alloc_failure(ctx, P, R="C07.R8")
         from . import c02
